@@ -13,6 +13,7 @@ from vf import contracts, gen as G, model as M, oracle as O, snapshot as S
 from vf.checks.common import Case, call, exc_text
 
 ID = "C13"
+TECHNIQUE = "runtime monitoring: contract monitors on Point2D.__init__, Intersection.lines, split, moments; exact crossing oracle; repository suite under contracts (thorough)"
 LEVEL = "exploration"
 RULE = ("random pairs of rational (int / Fraction / mixed) polygons of several families, small and large "
         "denominators; every operator, containment query, split, move/scale and moment on them under contract "
